@@ -237,3 +237,139 @@ impl Scheduler for Walker {
         splitmix(st.seed ^ st.nrand)
     }
 }
+
+// ------------------------------------------------------------------------------------------
+// Binding C: drive the runtime along an interleaving produced by the specification.
+
+pub fn cur_len() -> usize {
+    CUR.with(|c| c.borrow().len())
+}
+
+pub fn cur_from(i: usize) -> Vec<String> {
+    CUR.with(|c| c.borrow()[i.min(c.borrow().len())..].to_vec())
+}
+
+#[derive(Debug, Default)]
+pub struct DState {
+    pub witness: Vec<(usize, usize, String)>,
+    pub k: usize,
+    seen: usize,
+    code_rt: std::collections::HashMap<usize, usize>,
+    last_kind: std::collections::HashMap<usize, String>,
+    pub divergence: Option<serde_json::Value>,
+    pub child_of: Vec<Vec<i64>>, // per code index, per pc-1: spawned child code index or -1
+    started: bool,
+    /// purely local steps (no shared effect) that the runtime completed earlier than the witness lists them
+    early: std::collections::HashSet<(usize, usize)>,
+}
+
+#[derive(Debug, Clone)]
+pub struct Directed {
+    pub st: Arc<Mutex<DState>>,
+}
+
+impl Directed {
+    pub fn new(witness: Vec<(usize, usize, String)>, child_of: Vec<Vec<i64>>) -> Self {
+        let mut st = DState { witness, child_of, ..Default::default() };
+        st.code_rt.insert(0, 0);
+        Directed { st: Arc::new(Mutex::new(st)) }
+    }
+}
+
+impl DState {
+    /// Consume the op events logged since the last call and match them against the witness.
+    pub fn absorb(&mut self) {
+        let evs = cur_from(self.seen);
+        self.seen += evs.len();
+        for e in evs {
+            let v: serde_json::Value = serde_json::from_str(&e).unwrap();
+            if v["e"] != "op" {
+                continue;
+            }
+            let c = v["c"].as_u64().unwrap() as usize;
+            let pc = v["pc"].as_u64().unwrap() as usize;
+            let kind = v["k"].as_str().unwrap().to_string();
+            if kind == "spawn" {
+                let child = self.child_of[c][pc - 1];
+                if child >= 0 {
+                    self.code_rt.insert(child as usize, v["r"].as_u64().unwrap() as usize);
+                }
+            }
+            if self.divergence.is_none() {
+                // internal steps of the running task leave no log line
+                while self.k < self.witness.len() && self.witness[self.k].0 == c && self.witness[self.k].2 != "C" {
+                    self.k += 1;
+                }
+                while self.k < self.witness.len() && self.early.contains(&(self.witness[self.k].0, self.witness[self.k].1)) {
+                    self.k += 1;
+                }
+                if self.k < self.witness.len() {
+                    let w = &self.witness[self.k];
+                    if w.0 == c && w.1 == pc && w.2 == "C" {
+                        self.k += 1;
+                    } else if matches!(kind.as_str(), "ret" | "nop" | "acc" | "me" | "gget" | "ginc") {
+                        // commutes with every step of every other task: order is immaterial
+                        self.early.insert((c, pc));
+                    } else {
+                        let prev = self.last_kind.get(&c).cloned().unwrap_or_else(|| "start".to_string());
+                        self.divergence = Some(json!({"kind":"ran-ahead","task":c,"pc":pc,"prev":prev,"this":kind,
+                            "wanted":[w.0,w.1,w.2],"at":self.k}));
+                    }
+                }
+            }
+            self.last_kind.insert(c, kind);
+        }
+    }
+}
+
+impl Scheduler for Directed {
+    fn new_execution(&mut self) -> Option<Schedule> {
+        let mut st = self.st.lock().unwrap();
+        if st.started {
+            return None;
+        }
+        st.started = true;
+        Some(Schedule::new(0x5eed))
+    }
+
+    fn next_task(&mut self, runnable: &[&Task], current: Option<TaskId>, _is_yielding: bool) -> Option<TaskId> {
+        let mut st = self.st.lock().unwrap();
+        st.absorb();
+        let offered: Vec<usize> = runnable.iter().map(|t| usize::from(t.id())).collect();
+        let fallback = runnable.iter().find(|t| t.runnable()).map(|t| t.id()).unwrap_or_else(|| runnable[0].id());
+        let cur_code: Option<usize> = current.map(usize::from).and_then(|rt| st.code_rt.iter().find(|(_, &r)| r == rt).map(|(&c, _)| c));
+        loop {
+            while st.k < st.witness.len() && st.early.contains(&(st.witness[st.k].0, st.witness[st.k].1)) {
+                st.k += 1;
+            }
+            if st.divergence.is_some() || st.k >= st.witness.len() {
+                return Some(fallback);
+            }
+            let (c, pc, kind) = st.witness[st.k].clone();
+            let rt = st.code_rt.get(&c).copied();
+            if kind != "C" {
+                if Some(c) == cur_code {
+                    st.k += 1;
+                    continue;
+                }
+                st.k += 1;
+                match rt {
+                    Some(r) if offered.contains(&r) => return Some(TaskId::from(r)),
+                    _ => continue,
+                }
+            }
+            match rt {
+                Some(r) if offered.contains(&r) => return Some(TaskId::from(r)),
+                _ => {
+                    let k = st.k;
+                    st.divergence = Some(json!({"kind":"not-offered","want":[c,pc,kind],"offered":offered,"at":k}));
+                    return Some(fallback);
+                }
+            }
+        }
+    }
+
+    fn next_u64(&mut self) -> u64 {
+        0
+    }
+}
